@@ -230,7 +230,12 @@ def gen(rng, tier):
                             fb = FrameBuilder()
                             blob = bytearray(client_preface(fb, {}))
                             sib = []
-                            order = [("sib", 1), ("odd", 3), ("sib", 5)]
+                            # (lonely: the failing request is all there is, and the client says nothing after it - no WINDOW_UPDATE, no
+                            #  other stream whose frames would carry the reset out along with them: "promptly" cannot wait for those)
+                            lonely = rng.random() < 0.3
+                            order = [("sib", 1), ("odd", 3), ("sib", 5)] if not lonely else [("odd", 1)]
+                            if lonely:
+                                script = script[:1] + [["sleep", 1.0]] + script[1:]  # (the SETTINGS exchange is over by the time it fails)
                             by_tag = {str(tag): script}
                             for what, sid in order:
                                 if what == "sib":
@@ -246,8 +251,8 @@ def gen(rng, tier):
                                 "family": "h2." + kind, "backends": ["asyncio", "trio"] if kind != "cancel" else ["asyncio"],
                                 "config": {"keep_alive_timeout": 5000}, "conn": {},
                                 "apps": {"default": [["recv_until_end"], ["respond", 200, [], b"d"]], "by_tag": by_tag},
-                                "client": [["feed", bytes(blob)], ["settle"]], "reactor": {"kind": "h2", "credit": "auto"},
-                                "truth": {"proto": "h2", "at": at, "kind": kind, "tag": tag, "sid": 3, "total": total,
+                                "client": [["feed", bytes(blob)], ["settle"]], "reactor": {"kind": "h2", "credit": "auto" if not lonely else "none"},
+                                "truth": {"proto": "h2", "at": at, "kind": kind, "tag": tag, "sid": 3 if not lonely else 1, "total": total,
                                           "progress": _progress(steps, at), "siblings": sib},
                                 "sched": {"seed": rng.randrange(1 << 30)}, "horizon": 100.0,
                             }
